@@ -29,9 +29,10 @@ CHECKS = {
             "DESIGN.md §5 C15"),
     "C12": ("exploration",
             "An icontract postcondition on the real doWF (also fired by the calls block diagonalisation makes) checks on every call: "
-            "p >= 0, sum = Pt, KKT for the RETURNED water level, agreement with an independent longdouble closed-form water-filling, "
-            "50 feasible power moves never improve capacity, and permutation equivariance; gains span 12 decades, the number of "
-            "switched-off channels 0..n-1 is forced, Es != 1 in two thirds of the cases.",
+            "p >= 0 (exactly), sum = Pt, KKT for the RETURNED water level, agreement with an independent longdouble closed-form water-filling, "
+            "50 feasible power moves never improve capacity, and permutation equivariance (the permuted call is under the contract too); "
+            "gains span 12 decades incl. ties and integer dtypes, the number of switched-off channels 0..n-1 is forced, a fifth of the "
+            "budgets sit exactly on a switch-off boundary, Es != 1 in two thirds of the cases.",
             "Backward-error tolerances 64 n eps (level + inverse gains); reference uses numpy longdouble.",
             "icontract postcondition + independent reference solution + perturbation probe",
             "DESIGN.md §5 C12"),
@@ -98,7 +99,8 @@ CHECKS = {
             "1-60 iterations) and then driven through 1-8 public setter operations (P=, set_precoders(F|full_F), "
             "set_receive_filters(W|W_H), randomizeF, solve again); after the solve and after EVERY operation the relations among the "
             "public properties are evaluated: unit-norm precoders, full_F = sqrt(P) F (power never exceeded), full_W_H H_kk full_F = I, "
-            "W/W_H and full_W/full_W_H Hermitian pairs, stream counts vs shapes, closed-form nulling.  Leakage monotonicity is observed "
+            "W/W_H and full_W/full_W_H Hermitian pairs, stream counts vs shapes, closed-form nulling (also with fewer streams than half "
+            "the antennas), solver.P equal to the power passed to solve (re-solves use a new power).  Leakage monotonicity is observed "
             "twice: repeated one-iteration solves ('fix' initialisation) and a sys.monitoring trace of every iteration inside one solve; "
             "the two routes must agree.",
             "MMSE Lagrange-multiplier RuntimeError is tallied as a decline; MaxSINR/MMSE only with noise > 0; leakage increase allowed 1e-9 relative + 1e-12 of the initial unfiltered interference; the svd initialisation only for Nr = Nt.",
@@ -143,7 +145,10 @@ CHECKS = {
             "and minimum distance, refusal of outside users); border points (on the boundary, exact direction, linear in the ratio, "
             "border users); clusters of sizes 1,3,4,7,13,19 (simple, 3-sector) and square grids 1,4,9,16 under rotation (congruent "
             "cells, centroid, neighbour spacing 2 apothems / one side, disjoint interiors by kernel and by the library's own test, "
-            "user-to-cell distance matrices); and the circle/rectangle point processes.",
+            "user-to-cell distance matrices); and the circle/rectangle point processes.  A third of the hexagon/circle/Cell/Cell3Sec "
+            "shapes are reached through their pos/radius/rotation setters in random order; sector users are checked against an "
+            "independent sector hexagon; users seen through a CellWrap copy must be the translated originals inside the copy after "
+            "either cell moved; border ratios include 0, 1 and 1e-12.",
             "Points within 1e-9 radius of the boundary are tallied as tie zone; np.random is seeded per case; uniformity of random placement is not checked (not part of the property).",
             "independent geometric kernels as oracle over generated shapes, rotations and boundary-ladder queries",
             "DESIGN.md §5 C19"),
@@ -154,17 +159,21 @@ CHECKS = {
             "are compared with the single big accumulation (== for the exact class, 64 n eps of the absolute sums for floats).  Every "
             "object used as merged-in operand is snapshotted and re-compared after the merge and at the end of the history (aliasing).  "
             "The same law is checked through merge_all_results (incl. the runner's merge-into-empty pattern) / append_all_results on "
-            "1-3 result names, and per union-grid combination for combine_simulation_results with none/partial/full overlap.",
+            "1-3 result names (the runner's skip counter present in a random subset of the sets must be conserved), for results "
+            "objects holding several parameter combinations (append_all_results then merge_all_results under random groupings: each "
+            "combination equals the accumulation of its own repetitions, earlier combinations stay bit-identical), and per union-grid "
+            "combination for combine_simulation_results with none/partial/full overlap.",
             "For MISC results only 'last observation wins' (value, lists) is required; chunks are non-empty.",
             "reference-model comparison (single accumulation) over generated partitions/merge trees + operand-snapshot monitor",
             "DESIGN.md §5 C06"),
     "C17": ("exploration",
             "Generated parameter dictionaries (python and numpy scalars of every width, flat/nested lists, sets, 0-3-D real arrays incl. "
             "empty shapes, narrow dtypes and non-contiguous views, any subset of iterables marked unpacked, unpacked children) and result "
-            "sets (all types x accumulation x 0-10 updates, repetition counts) are pushed through every round trip: JSON string, JSON "
+            "sets (all types x accumulation x histories of 0-10 updates and merges of multi-update results, repetition counts) are pushed "
+            "through every round trip, once and again after the same object received further updates/merges: JSON string, JSON "
             "file, pickle file, extension-less and templated file names, parameter pickle files, Result to_json/to_dict.  Each loaded "
             "object is compared with the original by the classes' own == (which must not raise) and by an independent by-value "
-            "canonical form (strict types for pickle), then saved and loaded again; file names must equal the replaced template, be "
+            "canonical form read from the object's state, not from to_dict() (strict types for pickle), then saved and loaded again; file names must equal the replaced template, be "
             "deterministic and distinct for distinct scalar values.",
             "By-value semantics for JSON (a float32 may come back as a Python float with the same number); lists containing arrays and tuples are not generated.",
             "round-trip oracle with independent canonical-form comparison over generated objects",
@@ -177,7 +186,9 @@ CHECKS = {
             "grids (0-3 unpacked parameters), rep_max values, early-stop predicates and SkipThisOne patterns (incl. the first attempt of "
             "a variation); the trace and stored results must match exactly, results are looked up by random fixed-value subsets "
             "(get_pack_indexes / get_result_values_list vs brute force), every runner is simulated twice (no carry-over), and "
-            "single-variation mode is checked against its partial-results file.",
+            "single-variation mode is checked against its partial-results file.  Half of the runners are then RECONFIGURED by the user "
+            "(new rep_max, stop rule, skip pattern, new values of the unpacked parameters) and simulated again, in all-variation and "
+            "in single-index mode.",
             "Serial simulate() only (ipyparallel is not installed); values are dyadic so merged sums compare with ==.",
             "instrumented subclass trace + executable reference model, exactly-once ids",
             "DESIGN.md §5 C05"),
@@ -192,7 +203,9 @@ CHECKS = {
             "enumerated completely (quick: 15 of 18 configurations, about 600 crash points; thorough: all points of every small "
             "configuration, strided for rep_max around the 500-repetition save period, plus double crashes); guard histories restart "
             "with changed fixed values / unpacked lists / extra parameters (must be refused, files untouched) and a larger rep_max "
-            "(must resume).",
+            "(must resume).  Every atomic save logs what it made durable and that work must still be held by a file at the crash; "
+            "a third of the configurations stop early through _keep_going; same-object histories raise KeyboardInterrupt / "
+            "RuntimeError / MemoryError inside repetition k and call simulate() again on the same runner.",
             "A crash is os._exit at the failpoint (nothing buffered is flushed); torn writes keep the first b bytes; the machine itself does not lose renamed files (no fsync modelling).",
             "crash-point enumeration with forked children + offline history checker (exactly-once ids, durable + new)",
             "DESIGN.md §5 C07"),
@@ -203,7 +216,8 @@ CHECKS = {
             "be refused.  The channel part sends the signal through real TdlChannel objects with a zero-Doppler Jakes generator (1-6 "
             "taps, sorted / unsorted / colliding delays, memory in {0,1,cp-1,cp}, memory = cp = fft forced) and compares "
             "equalize_data(demodulate(r), reported impulse response) with the input, with a tolerance scaled by max|H|/min|H| of the "
-            "oracle's own DFT of the reported taps.",
+            "oracle's own DFT of the reported taps.  The caller's received buffer must keep its values and demodulate to the same "
+            "symbols a second time.",
             "Ill-conditioned channels (min|H| < 1e-6 max|H| on the used subcarriers) are tallied, not decided; SISO only.",
             "signal-structure oracle (independent DFT) + end-to-end equalisation check over generated configurations",
             "DESIGN.md §5 C02"),
